@@ -347,3 +347,118 @@ Theorem C17_chain_example :
             Forall (fun od => Permutation od (seq 0 (length ex_init))) ex_orders.
 Proof. exact ex_run_done. Qed.
 Print Assumptions C17_chain_example.
+
+(** * Extension 4 — the two links the chain extension left open *)
+From Leaspy Require Api.PersonalizeChainExec Api.PersonalizeChainExecR.
+From Leaspy Require Import Api.PersonalizeChainLink Api.PersonalizeChainLinkProofs Api.PersonalizeChainLinkQRProofs.
+
+(** (b) The proposal scales of the generated chain ARE C19's.  For every variable [v] of a successful run (any carrier, decision
+    rule, oracles, schedule, tape): [var_calls v (o_trace o)] = its sampler calls in the order they were made; the scales the run
+    proposed with at these calls ([sr_sds]) are the [std] of the states [AdaptiveStd.run_sampler] goes through on the run's OWN
+    acceptance history of that variable ([sr_acc] of the same calls), starting from [AdaptiveStd.init_sampler] at
+    STD_SCALE_FACTOR = 1/2 of the variable's scale for every individual — so C19_std_positive, C19_std_factor, C19_std_monotone_*,
+    C19_window_is_last_rows apply to the scales of the personalisation chain; the sampler left in the final state is the last one. *)
+Theorem C17_chain_scales :
+  forall A add mul ofQ decide att regv regsum scf acf nb random_order n_ind orders init scales tp o v sc,
+    personalize_run A add mul ofQ decide att regv regsum scf acf nb random_order n_ind orders init scales tp = Done o ->
+    nth_error scales v = Some sc ->
+    exists s0 sts, init_sampler scf ind_scale_factor (repeat sc n_ind) = Anneal.Ok s0 /\
+      run_sampler scf s0 (map sr_acc (var_calls v (o_trace o))) = Anneal.Ok sts /\
+      map sr_sds (var_calls v (o_trace o)) = map std (removelast (s0 :: sts)) /\
+      nth_error (r_samp (o_rs o)) v = Some (last sts s0).
+Proof. exact run_scales. Qed.
+Print Assumptions C17_chain_scales.
+
+(** (a) Simulation between the instances of the generic run.  [f : A -> B] commutes with [add], [mul], [ofQ], the decisions (the
+    same decision on the images: the same table) and the three oracles ([carrier_hom]) ==> the run over [B] on the mapped initial
+    values and tape is the run over [A] mapped through [f] — final values, tape left, chain, histories, every sampler call of the
+    trace with its scale, inverse temperature and decisions; a failing run fails with the same error. *)
+Theorem C17_chain_simulation :
+  forall (A B : Type) (f : A -> B) addA mulA ofQA decideA attA regvA regsumA addB mulB ofQB decideB attB regvB regsumB,
+    carrier_hom A B f addA mulA ofQA decideA attA regvA regsumA addB mulB ofQB decideB attB regvB regsumB ->
+  forall scf acf nb random_order n_ind orders init scales tp,
+    personalize_run B addB mulB ofQB decideB attB regvB regsumB scf acf nb random_order n_ind orders (smap f init) scales (tape_map f tp)
+    = outcome_map (out_map f) (personalize_run A addA mulA ofQA decideA attA regvA regsumA scf acf nb random_order n_ind orders init scales tp).
+Proof. exact run_hom. Qed.
+Print Assumptions C17_chain_simulation.
+
+(** ... read on Q (what T2 executes on every recorded run) and R (where the decision theorems live), through [Q2R]: if the two
+    decision rules agree on the images (by definition for [decideQR] / [decideR]; "the same table" when the rational run looks its
+    decisions up) and the real oracles extend the rational ones, then a successful rational run IS, injected, the real run on the
+    injected inputs, and each of its sampler calls, injected, is a call of the real model ([step_ok]; C03's [ind_step] by
+    [C17_chain_step_is_C03]) at the scale and inverse temperature the rational trace names. *)
+Theorem C17_chain_simulation_QR :
+  forall addQ mulQ, (forall x y, Q2R (addQ x y) = (Q2R x + Q2R y)%R) -> (forall x y, Q2R (mulQ x y) = (Q2R x * Q2R y)%R) ->
+  forall decQ decR attQ regvQ regsumQ attR regvR regsumR,
+    (forall u a b c d t, decQ u a b c d t = decR (Q2R u) (Q2R a) (Q2R b) (Q2R c) (Q2R d) (Q2R t)) ->
+    (forall st, attR (smap Q2R st) = map Q2R (attQ st)) ->
+    (forall v st, regvR v (smap Q2R st) = map Q2R (regvQ v st)) ->
+    (forall st, regsumR (smap Q2R st) = map Q2R (regsumQ st)) ->
+  forall scf acf nb random_order n_ind orders init scales tp o,
+    personalize_run Q addQ mulQ (fun q => q) decQ attQ regvQ regsumQ scf acf nb random_order n_ind orders init scales tp = Done o ->
+    personalize_run R Rplus Rmult Q2R decR attR regvR regsumR scf acf nb random_order n_ind orders (smap Q2R init) scales (tape_map Q2R tp)
+      = Done (out_map Q2R o) /\
+    Forall (fun kl => Forall (fun r => step_ok R Rplus Rmult Q2R decR attR regvR (step_map Q2R r)) (snd kl)) (o_trace o).
+Proof. exact run_QR_steps. Qed.
+Print Assumptions C17_chain_simulation_QR.
+
+(** ... and on the very term T2 evaluates for every recorded personalisation ([run_case]: normalising rational arithmetic, decisions
+    and oracles looked up in the finite tables of what the implementation did): for any real decision rule taking the recorded
+    decisions on the recorded uniforms and any real oracles extending the tables, the re-execution is, injected, the real run. *)
+Theorem C17_chain_simulation_T2 :
+  forall tol (c : PersonalizeChainExec.chain_case) decR attR regvR regsumR,
+  (forall u a b cc d t, PersonalizeChainExec.decide_of (PersonalizeChainExec.cc_dec c) u a b cc d t = decR (Q2R u) (Q2R a) (Q2R b) (Q2R cc) (Q2R d) (Q2R t)) ->
+  (forall st, attR (smap Q2R st) = map Q2R (PersonalizeChainExec.att_of tol (PersonalizeChainExec.cc_table c) st)) ->
+  (forall v st, regvR v (smap Q2R st) = map Q2R (PersonalizeChainExec.regv_of tol (PersonalizeChainExec.cc_table c) v st)) ->
+  (forall st, regsumR (smap Q2R st) = map Q2R (PersonalizeChainExec.regsum_of tol (PersonalizeChainExec.cc_table c) st)) ->
+  forall o, PersonalizeChainExec.run_case tol c = Done o ->
+    personalize_run R Rplus Rmult Q2R decR attR regvR regsumR (PersonalizeChainExec.cc_scf c) (PersonalizeChainExec.cc_acf c)
+                    (PersonalizeChainExec.cc_nb c) (PersonalizeChainExec.cc_random c) (length (PersonalizeChainExec.cc_ids c))
+                    (PersonalizeChainExec.cc_orders c) (smap Q2R (PersonalizeChainExec.cc_init c)) (PersonalizeChainExec.cc_scales c)
+                    (tape_map Q2R (Build_tape (PersonalizeChainExec.cc_normals c) (PersonalizeChainExec.cc_uniforms c)))
+      = Done (out_map Q2R o) /\
+    Forall (fun kl => Forall (fun r => step_ok R Rplus Rmult Q2R decR attR regvR (step_map Q2R r)) (snd kl)) (o_trace o).
+Proof. exact run_case_real. Qed.
+Print Assumptions C17_chain_simulation_T2.
+
+(** ... and these hypotheses are MET, for every case, by the tables themselves read over R ([PersonalizeChainExecR]: same closeness
+    test and same uniform look-up, decided on R): whenever T2's re-execution of a recorded run succeeds, it is — injected — a run of the
+    real instance whose every call is a real step.  No hypothesis left but the success of the rational run (which T2 checks). *)
+Theorem C17_chain_simulation_T2_tables :
+  forall tol (c : PersonalizeChainExec.chain_case) o, PersonalizeChainExec.run_case tol c = Done o ->
+    personalize_run R Rplus Rmult Q2R (PersonalizeChainExecR.decide_ofR (PersonalizeChainExec.cc_dec c))
+                    (PersonalizeChainExecR.att_ofR tol (PersonalizeChainExec.cc_table c))
+                    (PersonalizeChainExecR.regv_ofR tol (PersonalizeChainExec.cc_table c))
+                    (PersonalizeChainExecR.regsum_ofR tol (PersonalizeChainExec.cc_table c))
+                    (PersonalizeChainExec.cc_scf c) (PersonalizeChainExec.cc_acf c)
+                    (PersonalizeChainExec.cc_nb c) (PersonalizeChainExec.cc_random c) (length (PersonalizeChainExec.cc_ids c))
+                    (PersonalizeChainExec.cc_orders c) (smap Q2R (PersonalizeChainExec.cc_init c)) (PersonalizeChainExec.cc_scales c)
+                    (tape_map Q2R (Build_tape (PersonalizeChainExec.cc_normals c) (PersonalizeChainExec.cc_uniforms c)))
+      = Done (out_map Q2R o) /\
+    Forall (fun kl => Forall (fun r => step_ok R Rplus Rmult Q2R (PersonalizeChainExecR.decide_ofR (PersonalizeChainExec.cc_dec c))
+                                               (PersonalizeChainExecR.att_ofR tol (PersonalizeChainExec.cc_table c))
+                                               (PersonalizeChainExecR.regv_ofR tol (PersonalizeChainExec.cc_table c)) (step_map Q2R r)) (snd kl))
+           (o_trace o).
+Proof. exact run_case_real_tables. Qed.
+Print Assumptions C17_chain_simulation_T2_tables.
+
+(** Non-vacuity: the example run computed over Q, its real counterpart (real oracles = sums over R, real decision = the same
+    inequality decided on R), all six calls are real steps; some proposals accepted, some refused; and the scales of variable 0 along
+    its own acceptance history: initial for two calls, adapted ([9/20; 11/20]) for the third. *)
+Theorem C17_chain_links_example :
+  (exists o, personalize_run Q Qplus Qmult (fun q => q) ex_decide ex_att ex_regv ex_att ex_scf ex_acf 1 true 2 ex_orders ex_init [1; 2]%Q ex_tape = Done o /\
+    personalize_run R Rplus Rmult Q2R exR_decide exR_att exR_regv exR_att ex_scf ex_acf 1 true 2 ex_orders
+                    (smap Q2R ex_init) [1; 2]%Q (tape_map Q2R ex_tape) = Done (out_map Q2R o) /\
+    Forall (fun kl => Forall (fun r => step_ok R Rplus Rmult Q2R exR_decide exR_att exR_regv (step_map Q2R r)) (snd kl)) (o_trace o) /\
+    length (concat (map snd (o_trace o))) = 6%nat /\
+    existsb (fun kl => existsb (fun r => existsb (fun b => b) (sr_acc r)) (snd kl)) (o_trace o) = true /\
+    existsb (fun kl => existsb (fun r => existsb negb (sr_acc r)) (snd kl)) (o_trace o) = true) /\
+  (exists o s0 sts,
+    personalize_run Q Qplus Qmult (fun q => q) ex_decide ex_att ex_regv ex_att ex_scf ex_acf 1 true 2 ex_orders ex_init [1; 2]%Q ex_tape = Done o /\
+    init_sampler ex_scf ind_scale_factor (repeat 1%Q 2) = Anneal.Ok s0 /\
+    run_sampler ex_scf s0 (map sr_acc (var_calls 0 (o_trace o))) = Anneal.Ok sts /\
+    map sr_sds (var_calls 0 (o_trace o)) = map std (removelast (s0 :: sts)) /\
+    nth_error (r_samp (o_rs o)) 0 = Some (last sts s0) /\
+    map (map Qred) (map sr_sds (var_calls 0 (o_trace o))) = [[1 # 2; 1 # 2]; [1 # 2; 1 # 2]; [9 # 20; 11 # 20]]%Q).
+Proof. split; [exact run_QR_example | exact run_scales_example]. Qed.
+Print Assumptions C17_chain_links_example.
